@@ -42,33 +42,77 @@ FX = os.environ.get("VERIF_C15_REPAIRED") == "1"
 # ---------------------------------------------------------------------------------------------
 
 class Worker:
+    """One subprocess running harness/c15_worker.py.  Every wait has a timeout: a worker that hangs is killed and
+    the call returns {"crash": "timeout ..."} (an observation for the caller, never a hung check)."""
+
     def __init__(self):
         self.p = None
         self.crashes = 0
+        self.buf = b""
+
+    def _readline(self, timeout):
+        import select
+        import time
+        end = time.time() + timeout
+        fd = self.p.stdout.fileno()
+        while b"\n" not in self.buf:
+            left = end - time.time()
+            if left <= 0:
+                return None
+            r, _, _ = select.select([fd], [], [], min(left, 5.0))
+            if not r:
+                continue
+            chunk = os.read(fd, 1 << 20)
+            if not chunk:
+                line, self.buf = self.buf, b""
+                return line if line.endswith(b"\n") else b""      # EOF: the process is gone
+            self.buf += chunk
+        line, _, self.buf = self.buf.partition(b"\n")
+        return line + b"\n"
+
+    def _kill(self):
+        try:
+            self.p.kill()
+            self.p.wait(timeout=10)
+        except Exception:       # noqa
+            pass
+        self.p = None
+        self.buf = b""
 
     def _start(self):
         env = dict(os.environ)
         env["VERIF_REPO"] = C.REPO
         env["PYTHONDONTWRITEBYTECODE"] = "1"
-        self.p = subprocess.Popen([C.PY, "-m", "harness.c15_worker"], cwd=C.VERIF, env=env,
+        self.buf = b""
+        self.p = subprocess.Popen([C.PY, "-m", "harness.c15_worker"], cwd=C.VERIF, env=env, bufsize=0,
                                   stdin=subprocess.PIPE, stdout=subprocess.PIPE, stderr=subprocess.DEVNULL)
-        line = self.p.stdout.readline()
+        line = self._readline(600)
         if not line:
+            self._kill()
             raise RuntimeError("C15 worker did not start")
         self.ready = json.loads(line)
 
-    def call(self, task):
+    def call(self, task, timeout=300):
         if self.p is None or self.p.poll() is not None:
             self._start()
         try:
             self.p.stdin.write((json.dumps(task) + "\n").encode())
             self.p.stdin.flush()
-            line = self.p.stdout.readline()
-        except BrokenPipeError:
+            line = self._readline(timeout)
+        except (BrokenPipeError, OSError):
             line = b""
+        if line is None:
+            self._kill()
+            self.crashes += 1
+            return {"crash": "timeout after %d s (worker killed)" % timeout}
         if not line:
-            rc = self.p.wait()
+            try:
+                rc = self.p.wait(timeout=30)
+            except Exception:       # noqa
+                rc = "no exit status"
+                self._kill()
             self.p = None
+            self.buf = b""
             self.crashes += 1
             return {"crash": rc}
         return json.loads(line)
@@ -271,8 +315,8 @@ def run(ctx):
                    "source and compiled code differ; the property is shown for the compiled code only: %r" % (stale[:5],))
     if not ctx.quick():
         # thorough tier: the independent checker re-verifies the compiled C15 proof files (DESIGN 4.6)
-        rc, out = C.run(["coqchk", "-silent", "-o", "-Q", os.path.join(C.COQ, "theories"), "Pq",
-                         "Pq.Proofs.CAssembleFixedProofs", "Pq.Proofs.NestedMapProofs", "Pq.Proofs.NestedInvProofs"],
+        rc, out = C.run("ulimit -v 8000000; exec coqchk -silent -o -Q %s Pq Pq.Proofs.CAssembleFixedProofs "
+                        "Pq.Proofs.CAssembleV2Proofs Pq.Proofs.NestedMapProofs Pq.Proofs.NestedInvProofs" % os.path.join(C.COQ, "theories"),
                         timeout=1500, cwd=C.COQ)
         ctx.obligation("coqchk -o on the C15 proof files: no axioms, no type-in-type, no assumed positivity / guardedness",
                        rc == 0 and "Axioms: <none>" in out and out.count("<none>") >= 4, out[-1500:])
